@@ -83,9 +83,12 @@ def gen(rng: Rng, tier, i):
         tgt = rng.pick([{"name": "tgt.zip", "store": "zip"}, {"name": "tgt.zip", "store": "auto"},
                         {"name": "tgt", "store": "zip"}])
     else:
-        tgt = rng.pick([{"name": "tgt", "store": "dir"}, {"name": "tgt", "store": "auto"}])
+        tgt = rng.pick([{"name": "tgt", "store": "dir"}, {"name": "tgt", "store": "auto"},
+                        {"name": "tgt/", "store": "dir"}])
     pre = rng.weighted([("absent", 3), ("file", 2), ("dir", 1)]) if nver == 1 else "absent"
     pre_size = rng.randrange(4)
+    if tgt["name"].endswith("/") and pre == "file":
+        pre = "dir"   # 'name/' with a regular file called 'name' is not an existing path for the OS
     steps = []
     for v in range(nver):
         first = v == 0
@@ -159,7 +162,7 @@ def _others_hash(E, tgt_path):
 
 def _final_path(plan):
     t = plan["target"]
-    name = t["name"]
+    name = t["name"].rstrip("/")
     if t["store"] == "zip" and not name.endswith(".zip"):
         name += ".zip"
     return name
@@ -453,7 +456,13 @@ def run(plan):
     pd = plan_digest({k: plan[k] for k in plan if k not in ("positions", "run_seed")})
     nontrivial = []
     rec_events = rec["events"]
+    ern = Rng(plan.get("pos_seed", 0) + 17)
     for pos in positions:
+        if "errno" not in pos and pos["kind"] in ("store", "zip_write", "zip_open"):
+            # the KIND of failure varies too: several errnos and non-OSError exception types
+            pos = dict(pos, errno=ern.pick(["ENOSPC", "EIO", "EACCES", "ENOSPC", "EIO", "ValueError",
+                                            "RuntimeError", "MemoryError", "PermissionError",
+                                            "TimeoutError", "KeyError"]))
         out = _execute(plan, pos, rec_counts=counts, refs=refs, keep_log=True)
         sub = out["res"]
         for k in ("faults", "probes", "obs"):
